@@ -269,6 +269,17 @@ test_not_exclude_files_rule_config_with_uri_and_path_prefix if {
 	rules_to_run == {"testing": {"test"}}
 }
 
+test_exclude_files_rule_config_with_trailing_slash_path_prefix if {
+	cfg := {"rules": {"testing": {"test": {"level": "error"}}}}
+
+	rules_to_run := main._rules_to_run with config.merged_config as cfg
+		with config.for_rule as {"level": "error", "ignore": {"files": ["bar/*"]}}
+		with input.regal.file.name as "/foo/bar/p.rego"
+		with config.path_prefix as "/foo/"
+
+	rules_to_run == {}
+}
+
 test_force_exclude_file_eval_param if {
 	policy := `package p
 
